@@ -314,7 +314,9 @@ def c01_streams(tier, rng):
     return [StreamSet("roundtrip", "asan", kind_cases(tier, rng, ALL_KINDS, c01_ops)),
             StreamSet("huffman-keys", "asan", hhf_cases(tier, rng, 40 if tier == "thorough" else 14), phase2=hhf_phase2, timeout=60),
             StreamSet("scale", "asan", scale_cases(tier, rng, scale_ops_roundtrip), timeout=600),
-            StreamSet("full-tables", "asan", full_table_cases(tier, rng), timeout=600)]
+            StreamSet("full-tables", "asan", full_table_cases(tier, rng), timeout=600),
+            StreamSet("fm-layer", "asan", fm_cases(tier, rng, 24 if tier == "thorough" else 6), phase2=fm_phase2, timeout=90),
+            StreamSet("rpfc-layer", "asan", rpfc_cases(tier, rng, 24 if tier == "thorough" else 6), phase2=rpfc_phase2, timeout=90)]
 
 
 PROPS["C01"] = PropSpec(
@@ -539,7 +541,8 @@ def c02_streams(tier, rng):
                 lc.append(("c2l_%s_%d_%s" % (kind, pv["b"], ph), "dict", kind, pv, S, ops))
     return base + [StreamSet("longcodes", "asan", lc, timeout=120),
                    StreamSet("huffman-keys", "asan", hhf_cases(tier, rng, 20 if tier == "thorough" else 8), phase2=hhf_phase2, timeout=60),
-                   StreamSet("fm-layer", "asan", fm_cases(tier, rng, 24 if tier == "thorough" else 6), phase2=fm_phase2, timeout=90)]
+                   StreamSet("fm-layer", "asan", fm_cases(tier, rng, 24 if tier == "thorough" else 6), phase2=fm_phase2, timeout=90),
+                   StreamSet("rpfc-layer", "asan", rpfc_cases(tier, rng, 24 if tier == "thorough" else 6), phase2=rpfc_phase2, timeout=90)]
 
 
 PROPS["C02"] = PropSpec(c02_streams,
@@ -565,7 +568,8 @@ def c03_streams(tier, rng):
                 lc.append(("c3l_%s_%d_%s" % (kind, b, ph), "dict", kind, {"b": b}, LS, pre + ops))
     return [StreamSet("order", "asan", main), StreamSet("xbwrank", "asan", k6), StreamSet("longcodes", "asan", lc, timeout=120),
             StreamSet("rpdac-layer", "asan", rpdac_cases(tier, rng, 30 if tier == "thorough" else 10), phase2=rpdac_phase2, timeout=60),
-            StreamSet("fm-layer", "asan", fm_cases(tier, rng, 24 if tier == "thorough" else 6), phase2=fm_phase2, timeout=90)]
+            StreamSet("fm-layer", "asan", fm_cases(tier, rng, 24 if tier == "thorough" else 6), phase2=fm_phase2, timeout=90),
+            StreamSet("rpfc-layer", "asan", rpfc_cases(tier, rng, 24 if tier == "thorough" else 6), phase2=rpfc_phase2, timeout=90)]
 
 
 PROPS["C03"] = PropSpec(c03_streams,
@@ -573,7 +577,8 @@ PROPS["C03"] = PropSpec(c03_streams,
                         _PART, "IDs of order-preserving kinds are lexicographic ranks (corollary of the refinement theorems)", _ASSUME)
 def c04_streams(tier, rng):
     base = simple_dict_prop(c04_ops, PREFIX_KINDS, "prefix", phases=("built", "loaded", "loaded2"), scale="scale_ops_prefix")(tier, rng)
-    return base + [StreamSet("fm-layer", "asan", fm_cases(tier, rng, 24 if tier == "thorough" else 6), phase2=fm_phase2, timeout=90)]
+    return base + [StreamSet("fm-layer", "asan", fm_cases(tier, rng, 24 if tier == "thorough" else 6), phase2=fm_phase2, timeout=90),
+                   StreamSet("rpfc-layer", "asan", rpfc_cases(tier, rng, 24 if tier == "thorough" else 6), phase2=rpfc_phase2, timeout=90)]
 
 
 PROPS["C04"] = PropSpec(c04_streams,
@@ -824,7 +829,7 @@ def pool_cases(tier, rng, name):
     return cases
 
 
-def blocks_cases(tier, rng, name, per_dict=2, big_inputs=True):
+def blocks_cases(tier, rng, name, per_dict=2, big_inputs=True, tiny_cuts_on_large=True):
     thorough = tier == "thorough"
     r = rng.fork("blocks" + name)
     bat = small_battery(tier, rng, 30 if thorough else 8)
@@ -854,6 +859,8 @@ def blocks_cases(tier, rng, name, per_dict=2, big_inputs=True):
         if len(S) >= 300:
             cuts += [max(1, total // 6), max(1, total // 11)]
         for cut in sorted(set(cuts)):
+            if not tiny_cuts_on_large and len(S) >= 2000 and cut < 64:
+                continue      # thousands of one-string blocks under TSan take minutes; the 400-string dictionary covers tiny cuts
             ops = []
             for k in range(per_dict):
                 strat = r.choice([0, 1, 3, 4, 5])
@@ -875,7 +882,7 @@ def c11_streams(tier, rng):
     env = {"TSAN_OPTIONS": "halt_on_error=0:report_signal_unsafe=0:exitcode=0:second_deadlock_stack=1"}
     pc = [c for i, c in enumerate(pool_cases(tier, rng, "tp")) if i % 3 == 0]
     return [StreamSet("tsan-pool", "tsan", pc, timeout=30, env=env),
-            StreamSet("tsan-blocks", "tsan", blocks_cases(tier, rng, "tb", per_dict=1, big_inputs=False), timeout=120, env=env)]
+            StreamSet("tsan-blocks", "tsan", blocks_cases(tier, rng, "tb", per_dict=1, big_inputs=False, tiny_cuts_on_large=False), timeout=240, env=env)]
 
 
 PROPS["C10"] = PropSpec(c10_streams,
@@ -1532,6 +1539,50 @@ def fm_cases(tier, rng, k):
         for i, st in enumerate(sorted(set(chosen))):
             pv = {"rrr": (i + r.below(2)) % 2, "bs": r.choice([2, 3, 5, 20, 32]), "bwt": st}
             cases.append(("fm_%s_%d" % (name, st), "fm", "FMINDEX", pv, S, [["fm", qh, ph, sh], ["reload"], ["fm", qh, ph, sh]]))
+    return cases
+
+
+
+def rpfc_phase2(case, impl_lines):
+    """The RPFC object exported by the real code (grammar, bucket headers, symbol streams) -> the Lean validator."""
+    strs = ",".join(hx(s) for s in case[4]) or "-"
+    ops = []
+    k = 0
+    for l in impl_lines:
+        t = l.split()
+        if k >= len(case[5]):
+            break
+        src = case[5][k]
+        if len(t) >= 10 and t[1] == "RF":
+            d = dict(x.split("=", 1) for x in t[2:])
+            ops.append(["rfchk", strs, src[1] if len(src) > 1 else "-", src[2] if len(src) > 2 else "-"] +
+                       [d.get(f, "-") for f in ("t", "mc", "el", "ml", "bk", "bs", "rules", "hdr", "st", "loc", "abs", "pre", "ext")])
+            k += 1
+        elif len(t) >= 2 and t[1] == "RQ":
+            ops.append(["rdskip"])
+            k += 1
+        elif not l.startswith("FAULT"):
+            ops.append(["rfchk", strs] + ["-"] * 15)
+            k += 1
+    while len(ops) < len(case[5]):
+        ops.append(["rfchk", strs] + ["-"] * 15)
+    return ops
+
+
+def rpfc_cases(tier, rng, k):
+    cases = []
+    r = rng.fork("rpfc")
+    for name, S in small_battery(tier, rng, k):
+        if sum(len(s) + 1 for s in S) > 6000 or any(len(s) >= 16384 for s in S):
+            continue        # the Lean model expands every symbol through the rule table
+        qs = [q for q in gen.queries_members_and_neighbours(r, S, 10) if q not in set(S)][:12]
+        qh = ",".join(hx(q) for q in qs) or "-"
+        ps = [p for p in gen.prefixes_of(r, S, 10) if p][:20]
+        ph = ",".join(hx(p) for p in ps) or "-"
+        n = len(S)
+        bs = sorted(set([2, 3, 4, r.choice([5, 8, 16]), max(2, n), n + 1]))
+        for b in (bs if tier == "thorough" else r.sample(bs, min(3, len(bs)))):
+            cases.append(("rf_%s_b%d" % (name, b), "rpfc", "RPFC", {"b": b}, S, [["rf", qh, ph], ["reload"], ["rf", qh, ph]]))
     return cases
 
 
